@@ -234,6 +234,7 @@ func (ctx *Context) GetCurSeed() ([]byte, error) {
 	if ctx.RandSrc != nil {
 		return ctx.RandSrc.MarshalBinary()
 	}
+	verifShared("randSource", false)
 	return randSource.MarshalBinary()
 }
 
